@@ -80,6 +80,20 @@ def geometry_violations(conf_rec):
                 if d < 0.5:
                     v.append({"clause": "h/distinct-positions", "detail": "two hydrogens on %r only %.3f A apart" % (
                         pk, d)})
+    # a hydrogen the program adds must not sit on top of a hydrogen it has read from the file (whatever the bond graph
+    # says about that one)
+    from_file = [a for a in atoms if a["elem"] == "H" and a["from_file"]]
+    if from_file:
+        for a in atoms:
+            if a["elem"] != "H" or a["from_file"]:
+                continue
+            for f in from_file:
+                if abs(a["xyz"][0] - f["xyz"][0]) < 500 and abs(a["xyz"][1] - f["xyz"][1]) < 500:
+                    d = sum((x - y) ** 2 for x, y in zip(a["xyz"], f["xyz"])) ** 0.5 / 1000.0
+                    if d < 0.5:
+                        v.append({"clause": "h/distinct-positions", "detail": "added hydrogen %s on %s%d only %.3f A from "
+                                  "hydrogen %s read from the file" % (a["name"], a["resname"], a["resnum"], d, f["name"])})
+                        break
     return v, per_parent
 
 
